@@ -836,6 +836,17 @@ class EnumMember:
         return it.truth(self.value) if self.is_int else True
 
     def abs_binop(self, it, op, a, b, swapped):
+        kind = enum_kind(it, self.cls)
+        if kind in ('Flag', 'IntFlag') and isinstance(op, (ast.BitOr, ast.BitAnd, ast.BitXor)):
+            # flags combine into (pseudo-)members of the same class
+            other = b if a is self else a
+            if isinstance(other, EnumMember) and other.cls is self.cls or (kind == 'IntFlag' and isinstance(other, K) and isinstance(other.v, int)):
+                r = it.binop(op, a.value if isinstance(a, EnumMember) else a, b.value if isinstance(b, EnumMember) else b)
+                if isinstance(r, K) and isinstance(r.v, int):
+                    return flag_member(it, self.cls, r.v)
+                if kind == 'Flag':
+                    raise Fail(f'{self.cls.name}: combination of flags with symbolic values')
+                return r
         if not self.is_int:
             return None
         a2 = a.value if isinstance(a, EnumMember) and a.is_int else a
@@ -847,6 +858,10 @@ class EnumMember:
             same = isinstance(a, EnumMember) and isinstance(b, EnumMember) and a.abs_key() == b.abs_key()
             return K(same if isinstance(op, ast.Is) else not same)
         if isinstance(op, (ast.In, ast.NotIn)):
+            if isinstance(a, EnumMember) and isinstance(b, EnumMember) and a.cls is b.cls and enum_kind(it, a.cls) in ('Flag', 'IntFlag') \
+                    and isinstance(a.value, K) and isinstance(b.value, K):
+                r = (a.value.v & b.value.v) == a.value.v            # flag containment
+                return K(r if isinstance(op, ast.In) else not r)
             return None
         if self.is_int or (isinstance(a, EnumMember) and isinstance(b, EnumMember) and a.is_int and b.is_int):
             a2 = a.value if isinstance(a, EnumMember) and a.is_int else a
@@ -898,12 +913,31 @@ def enum_members(it, cls):
     return out
 
 
+def flag_member(it, cls, v):
+    """the member of a Flag / IntFlag class with integer value v: a declared member, or the pseudo-member the library creates for a combination"""
+    members = enum_members(it, cls)
+    for m in members.values():
+        if isinstance(m.value, K) and m.value.v == v:
+            return m
+    kind = enum_kind(it, cls)
+    known = 0
+    for m in members.values():
+        if isinstance(m.value, K) and isinstance(m.value.v, int):
+            known |= m.value.v
+    if kind == 'Flag' and (v < 0 or v & ~known):
+        raise RaiseEx('ValueError', f'{v!r} is not a valid {cls.name}')
+    names = [m.name for m in members.values() if isinstance(m.value, K) and m.value.v and m.value.v & v == m.value.v and m.value.v & (m.value.v - 1) == 0]
+    return EnumMember(cls, '|'.join(names) or str(v), K(v), _ENUM_BASES[kind])
+
+
 def enum_lookup(it, cls, value):
     for m in enum_members(it, cls).values():
         if it.eq3(m.value, value) is True:
             return m
     if isinstance(value, EnumMember) and value.cls is cls:
         return value
+    if enum_kind(it, cls) in ('Flag', 'IntFlag') and isinstance(value, K) and isinstance(value.v, int) and not isinstance(value.v, bool):
+        return flag_member(it, cls, value.v)
     if isinstance(value, K):
         raise RaiseEx('ValueError', f'{value.v!r} is not a valid {cls.name}')
     raise Fail(f'{cls.name}(symbolic value)')
@@ -1020,6 +1054,8 @@ def to_const(v):
         return tuple(items) if v.tup else items
     if isinstance(v, PBits) and v.known() and v.view in ('str', 'bytes'):
         return v.pat if v.view == 'str' else bytes(int(v.pat[i:i + 8], 2) for i in range(0, len(v.pat), 8))
+    if isinstance(v, EnumMember) and v.is_int and isinstance(v.value, K):
+        return v.value.v            # IntEnum / IntFlag members are integers
     raise NotConst()
 
 
@@ -2505,6 +2541,8 @@ def builtin(it, name, args, kw, n):
             if len(args) > 1:
                 return args[1]
             raise RaiseEx('StopIteration', '')
+    if name in ('int', 'operator.index', 'index') and args and isinstance(args[0], EnumMember) and args[0].is_int:
+        return args[0].value
     if name == 'int' and args:
         v = args[0]
         if isinstance(v, PBits) and v.view == 'str' and len(args) > 1 and isinstance(args[1], K) and args[1].v == 2:
